@@ -8,6 +8,7 @@ import (
 	"io"
 	"math"
 	"math/big"
+	"strconv"
 	"strings"
 
 	"gonum.org/v1/gonum/mat"
@@ -314,6 +315,23 @@ func runMatBinary(c *Ctx) *Violation {
 					out := fmt.Sprintf(verb, mat.Formatted(cd.value, opts...))
 					if strings.Contains(out, "PANIC=") {
 						return viol("mat-binary/"+name+"/formatted-panics", "fmt.Sprintf(%q, mat.Formatted(m, option set %d)) of a %dx%d matrix prints %s", verb, len(opts), r, cl, out)
+					}
+				}
+			}
+			// the one-line MATLAB and Python forms are text encodings of the
+			// value: with %v (shortest representation that round-trips) the
+			// numbers read back are the elements
+			for k, opt := range []mat.FormatOption{mat.FormatMATLAB(), mat.FormatPython()} {
+				out := fmt.Sprintf("%v", mat.Formatted(cd.value, opt))
+				fields := strings.FieldsFunc(out, func(r rune) bool { return strings.ContainsRune("[];, \n", r) })
+				if len(fields) != r*cl {
+					return viol("mat-binary/"+name+"/formatted-text-roundtrip", "%s form of a %dx%d matrix holds %d numbers: %s", []string{"MATLAB", "Python"}[k], r, cl, len(fields), out)
+				}
+				for i, f := range fields {
+					got, err := strconv.ParseFloat(f, 64)
+					want := cd.value.At(i/cl, i%cl)
+					if err != nil || !(got == want || (math.IsNaN(got) && math.IsNaN(want))) || math.Signbit(got) != math.Signbit(want) && !math.IsNaN(want) {
+						return viol("mat-binary/"+name+"/formatted-text-roundtrip", "%s form printed with %%v: element (%d,%d) = %v is written %q (%v)\n%s", []string{"MATLAB", "Python"}[k], i/cl, i%cl, want, f, err, out)
 					}
 				}
 			}
